@@ -24,12 +24,14 @@ from . import ceval, ir, ptr, repo
 
 LEVEL = "other"
 MANIFEST = {
-    "text": "decides the error discipline of asconcrypt and asconsum: no error-signalling result is "
-            "discarded, every failure value of every such callee drives the caller to its failure status "
-            "(and main to a non-zero exit), a failing path after the output was opened passes through the "
-            "delete-output call, and the writer/reader format constants agree; decided by exhaustive "
-            "exploration of a finite abstraction of each function (status-variable web x failure flags); "
-            "the run-time behaviours (round trip, tamper detection, real I/O faults) are not decided",
+    "text": "decides the error discipline of asconcrypt and asconsum: no error-signalling result is discarded, "
+            "every failure value of every such callee (in-tool functions, documented library contracts, and "
+            "read/write/open inside the tools' own I/O wrappers) drives the caller to its failure status (and "
+            "main to a non-zero exit) unless the same call is retried, a failing path after the output was opened "
+            "passes through the delete-output call, and the writer/reader format constants agree; decided by "
+            "exhaustive exploration of a finite abstraction of each function (status-variable web x failure "
+            "flags); asconsum's fopen/ferror error counters and all run-time behaviours (round trip, tamper "
+            "detection, real I/O faults) are not decided",
     "note": "trusted: clang lowering, irdump; documented contracts of ascon_random (0 = failure) and of the "
             "library decrypt functions (negative = failure); libc I/O semantics (fread/fwrite/ferror) are "
             "modelled only through the tools' own wrappers",
